@@ -237,6 +237,19 @@ var specs = []CheckSpec{
 		Outside:     []string{"parallel execution of subtests (t.Parallel is a no-op in the recording T: scripts run one at a time)", "background processes and their termination", "real directory removal semantics beyond the model"},
 	},
 	{
+		ID: "C17", Pkg: "testscript", UsesVFS: true,
+		Harnesses: []HarnessSpec{
+			{Fn: "VerifC17Deadline", Witness: []string{"deadline-set", "no-deadline", "grace-period-scaled", "grace-period-minimum", "timed-out", "plain-failure", "unaffected"}},
+		},
+		Bounds: map[string]string{
+			"quick":    "one script with one foreground exec line (negated or not) run through the real RunT / run / cmdExec / exec; Params.Deadline set or not; the distance to the deadline any int64 nanosecond count in [-2^40, 2^55] (about -18 minutes to +1.1 years); the command's result (nil / error) and whether the context has expired are symbolic",
+			"thorough": "same (the space is covered symbolically)",
+		},
+		Stubs:       []string{"time.Until returns the symbolic distance", "context.WithTimeout returns a model context recording its timeout, whose Err is DeadlineExceeded iff the harness's 'expired' choice", "os/exec.Command builds the Cmd value, (*exec.Cmd).Start succeeds", "testscript.waitOrStop is replaced by a recorder returning the chosen result (the function itself is decided by the tsys part of this check)", "file system as C01"},
+		Assumptions: append([]string{"PART CLAIMED (with the tsys part): grace period = max(100ms, 5% of the remaining time); the run context expires two grace periods before Params.Deadline; foreground commands wait on that context with kill delay = one grace period; a command error while the context has expired fails the script with the timed-out message, otherwise the usual verdict; without a deadline nothing expires. NOT claimed: wall-clock completion of RunT and its subtests, liveness of real child processes, scheduling slack"}, commonAssumptions...),
+		Outside:     []string{"real time and real processes", "background commands", "the interp of several scripts sharing one context (each gets the same ctx value; refCount/cancel is not examined)"},
+	},
+	{
 		ID: "C11", Pkg: "cache", UsesVFS: true,
 		Harnesses: []HarnessSpec{
 			{Fn: "VerifC11OneWriterOneReader", Quick: map[string]int{"L": 1}, Thorough: map[string]int{"L": 2}, Witness: []string{"fresh", "restore-identical", "overwrite", "lookup-hit", "lookup-miss", "getfile-hit", "several-snapshots"}},
